@@ -16,6 +16,7 @@ def main(argv=None) -> int:
     ap.add_argument("--replay", default=None)
     ap.add_argument("--repo", default=None, help="analyse this checkout instead of /repo (used by the self-test)")
     ap.add_argument("--no-selftest", action="store_true")
+    ap.add_argument("--dump-keys", action="store_true", help="print the (rule, function, construct) keys of current violations")
     args = ap.parse_args(argv)
     if args.repo:
         os.environ["UPSA_REPO"] = args.repo
@@ -45,6 +46,10 @@ def main(argv=None) -> int:
                 want = json.load(fh)["key"]
             hit = [o for o in rep.obligations if not o.ok and o.key() == want]
             print(f"replay: finding {'REPRODUCED' if hit else 'not present'}: {want}")
+        if args.dump_keys:
+            for o in rep.obligations:
+                if not o.ok:
+                    print(json.dumps({"property": prop, **o.key(), "where": o.where}))
         code = finish(rep, idx)
     except index_mod.AnalysisError as e:
         print(f"ANALYSIS-ERROR: property={prop} {e}")
